@@ -414,6 +414,34 @@ def rule_O1(ctx, R):
             if any(x["k"] == "ref" and not x["mut"] and x["ty"]["k"] == "param" and x["ty"]["name"] in lparams for x in ty_walk(out)):
                 res.bad(Violation("O1", f["path"], "inner-lock-shared", "Poisonable hands out %s: the inner lock can be acquired "
                                   "directly, bypassing the poison flag" % out["s"], *_floc(f)))
+        tr = i.get("trait")
+        if tr in DENY_TRAITS:
+            res.bad(Violation("O1", PP, "impl " + tr, "Poisonable implements %s: whatever the inner lock (or collection) hands out "
+                              "through it - e.g. the member locks of a wrapped collection - can be locked directly, and a panic during "
+                              "such a hold never poisons" % tr, i["span"]["file"], i["span"]["line"]))
+    # conversions / free functions / impls on other types that take `&OwnedLockCollection<L>` and give back something typed by L
+    for f in ctx.F.fns:
+        if "inputs" not in f or f.get("unsafe") or not f.get("reachable") or f["kind"] == "Closure":
+            continue
+        imp = ctx.F.impl_of_fn(f)
+        if imp and ((imp["self_ty"]["k"] == "adt" and imp["self_ty"]["path"] == P) or
+                    (imp["self_ty"]["k"] == "ref" and imp["self_ty"]["ty"].get("path") == P)):
+            continue     # judged above
+        if R.roles(f) & {"ACQ-GUARD", "ACQ-SCOPED"}:
+            continue
+        if (f.get("trait_item") or "").startswith(("std::fmt::", "lockable::")):
+            continue
+        lp = set()
+        for t in f["inputs"]:
+            for x in ty_walk(t):
+                if x["k"] == "ref" and not x["mut"] and x["ty"]["k"] == "adt" and x["ty"]["path"] == P:
+                    lp |= set(a["name"] for a in x["ty"]["args"] if a["k"] == "param")
+        if not lp:
+            continue
+        if any(x["k"] == "param" and x["name"] in lp for x in ty_walk(f["output"])):
+            res.bad(Violation("O1", f["path"], "shared-view", "%s takes `&OwnedLockCollection<%s>` and returns %s: a shared view of the "
+                              "members of an owned collection (they can then be locked on their own, in another order, and are "
+                              "invisible to duplicate checks)" % (f["path"].split("::")[-1], "/".join(sorted(lp)), f["output"]["s"]), *_floc(f)))
     res.need(25, "methods of OwnedLockCollection")
     return res
 
